@@ -32,6 +32,7 @@ func ruleC19(c *Check) {
 	c.genesisBindingSetter("C19.5")
 	c.genesisValidators("C19.6")
 	c.storedValuesValidate("C19.6")
+	c.moduleWiring("C19.7", map[string]bool{"genesis": true})
 }
 
 func (c *Check) zeroHeightRefunds(rule string) {
@@ -845,4 +846,108 @@ func (c *Check) storedValuesValidate(rule string) {
 	}
 	c.req(ok, rule, name+"#accepts-empty-deposit", pos,
 		"the empty deposit stored by "+where.Name+" (full refund) is accepted by the deposit validator that genesis validation applies to exported bindings")
+}
+
+// moduleWiring: the application reaches the module through the sdk's AppModule methods. The genesis state handed to
+// the import is the one decoded from the raw genesis message, the exported raw message is the encoding of what the
+// export returns, and the end-of-block method runs the module's end blocker with the module's keeper.
+func (c *Check) moduleWiring(rule string, which map[string]bool) {
+	svcFnWith := func(pred func(*Func) bool) *Func {
+		for _, f := range c.P.Funcs {
+			if f.isHandWritten() && f.Body != nil && f.Parent == nil && f.Recv == nil && f.pkgName() == "service" && pred(f) {
+				return f
+			}
+		}
+		return nil
+	}
+	if which["genesis"] {
+		imp := svcFnWith(func(f *Func) bool {
+			if len(f.Res) != 0 {
+				return false
+			}
+			for _, pr := range f.Params {
+				if namedStruct(pr.Type()) == "GenesisState" {
+					return true
+				}
+			}
+			return false
+		})
+		exp := svcFnWith(func(f *Func) bool {
+			return len(f.Res) == 1 && namedStruct(f.Res[0].Type()) == "GenesisState" && len(f.Params) == 2
+		})
+		mi := c.mustFn(rule, "service.AppModule.InitGenesis")
+		me := c.mustFn(rule, "service.AppModule.ExportGenesis")
+		if imp == nil || exp == nil {
+			c.undecided(rule, "module-genesis-functions", token.NoPos, "the import / export functions of package service were not found by their signatures")
+		}
+		if mi != nil && imp != nil {
+			n, bad := 0, ""
+			for _, pa := range c.P.PathsOf(mi) {
+				if !pa.OK() {
+					continue
+				}
+				n++
+				found := false
+				for _, ev := range pa.Events {
+					if ev.Kind != EvCall || ev.CI.fn != imp {
+						continue
+					}
+					for _, a := range ev.CI.args {
+						if namedStruct(a.Typ) != "GenesisState" && !a.ContainsOp("out") {
+							continue
+						}
+						// the decoded value of the raw message parameter
+						if a.Op == "out" && len(a.A) == 2 && (strings.HasSuffix(a.A[0].Op, ".MustUnmarshalJSON") || strings.HasSuffix(a.A[0].Op, ".UnmarshalJSON")) && a.A[0].ContainsAtom("P2") {
+							found = true
+						} else {
+							bad = "the state handed to the import is " + shortTerm(a)
+						}
+					}
+				}
+				if !found && bad == "" {
+					bad = "a path does not run the import"
+				}
+			}
+			c.req(n > 0 && bad == "", rule, unitConstruct(mi, "imports-decoded-state"), mi.Body.Pos(),
+				"the module's InitGenesis method runs the import on the state decoded from the raw genesis message it was given"+condStr(bad != "", ": "+bad))
+		}
+		if me != nil && exp != nil {
+			n, bad := 0, ""
+			for _, pa := range c.P.PathsOf(me) {
+				if !pa.OK() || len(pa.Ret) != 1 {
+					continue
+				}
+				n++
+				r := pa.Ret[0]
+				if !((strings.HasSuffix(r.Op, ".MustMarshalJSON") || strings.HasSuffix(r.Op, ".MarshalJSON")) && len(r.A) >= 1 && stripAddr(r.A[len(r.A)-1]).Op == exp.Name) {
+					bad = "it returns " + shortTerm(r)
+				}
+			}
+			c.req(n > 0 && bad == "", rule, unitConstruct(me, "encodes-exported-state"), me.Body.Pos(),
+				"the module's ExportGenesis method returns the JSON encoding of what the export returns"+condStr(bad != "", ": "+bad))
+		}
+	}
+	if which["endblock"] {
+		u := c.feeUnits(rule)
+		mb := c.mustFn(rule, "service.AppModule.EndBlock")
+		if mb != nil && u != nil && u.EndBlocker != nil {
+			n, ok := 0, true
+			for _, pa := range c.P.PathsOf(mb) {
+				if !pa.OK() {
+					continue
+				}
+				n++
+				calls := 0
+				for _, ev := range pa.Events {
+					if ev.Kind == EvCall && ev.CI.fn == u.EndBlocker && !ev.Defer && ev.Loop == nil {
+						calls++
+					}
+				}
+				if calls != 1 {
+					ok = false
+				}
+			}
+			c.req(n > 0 && ok, rule, unitConstruct(mb, "runs-end-blocker"), mb.Body.Pos(), "the module's EndBlock method runs the end blocker exactly once on every path")
+		}
+	}
 }
